@@ -12,10 +12,10 @@ def main(tier, replay=None):
         dict(scn="c11", name="one-failing-call", opts=["family=faults"], bounds="0,%d,0,0" % (1 if tier == "quick" else 2), total=2),
     ]
     plain_src = run_families(res, "C11", tier, fams)
-    res.rule = ("for every ordered subset (size <= 3) of an 11-line users/assign pool (exact, wildcards with nested prefixes and two break characters, "
+    res.rule = ("for every ordered subset (size <= 3) of a 12-line users/assign pool (a uid of 2^32, exact, wildcards with nested prefixes and two break characters, "
                 "duplicate exact and wildcard keys, mixed case, a uid-0 entry, a malformed line) the real qmail-newu compiles the table; the real "
                 "qmail-lspawn (spawn.c, real qmail-getpw for the password-file fallback, virtual passwd with root/ownerless/missing homes, 31- and "
-                "32-character names) receives one delivery command per local part of a 35-entry pool (keys, near misses, case flips, "
+                "32-character names) receives one delivery command per local part of a 47-entry pool (keys, near misses, case flips, "
                 "extensions); at the exec of bin/qmail-local the argument vector, uid, gid, group list and the order setgroups, setgid, setuid "
                 "are compared with a reference lookup of qmail-users(5)/qmail-getpw(8); users/cdb truncated at every length and every single "
                 "failing read/lseek/open/stat/fork/pipe/setgroups/setgid/setuid must defer, never bounce or change identity")
